@@ -34,13 +34,21 @@ void h_encode_path(void) {
     struct aws_byte_buf *b; const struct aws_byte_cursor *c;
     GHOSTS_ENC();
     int r = aws_byte_buf_append_encoding_uri_path(b, c);
-    if (r == 0) CANARY("encoded"); else CANARY("refused");
+#ifdef VERIF_ENC_HUGE
+    if (r != 0) CANARY("refused");
+#else
+    if (r == 0) CANARY("encoded"); /* refusal needs 3*len to overflow: unit encode_huge */
+#endif
 }
 void h_encode_param(void) {
     struct aws_byte_buf *b; const struct aws_byte_cursor *c;
     GHOSTS_ENC();
     int r = aws_byte_buf_append_encoding_uri_param(b, c);
-    if (r == 0) CANARY("encoded"); else CANARY("refused");
+#ifdef VERIF_ENC_HUGE
+    if (r != 0) CANARY("refused");
+#else
+    if (r == 0) CANARY("encoded");
+#endif
 }
 
 /* ------------------------------------------------------------------ per-byte round trip (complete: all 256 bytes, both encoders)
